@@ -93,9 +93,10 @@ class Block:
             value = int(value)
 
         self.vars[key] = value
-        # Invalidate the serialization cache if we manually changed the value
-        if key in self._ser_cache:
-            self._ser_cache.pop(key)
+        # Invalidate the whole serialization cache if we manually changed a value. The decoded
+        # forms of the other variables may have been selected by this one (PCode -> State,
+        # Type -> TypeData, ...)
+        self._ser_cache.clear()
 
     def get_serializer(self, var_name) -> se.BaseSubfieldSerializer:
         serializer_key = (self.message_name, self.name, var_name)
